@@ -72,6 +72,8 @@ class Ev:
                     raise Undecided('0 ^ non-positive')
                 if a < 0 and b != m.floor(b):
                     raise Undecided('negative base with fractional exponent')
+                if a != 0 and abs(b) * abs(m.log(abs(a))) > 3000:
+                    raise Undecided('power overflow')
                 r = m.power(a, b)
             elif op in ('=', '!=', '<', '<=', '>', '>='):
                 raise Undecided('relation as value')
@@ -161,6 +163,8 @@ class Ev:
                 return m.sec(a[0])
             if name == 'csc':
                 return m.csc(a[0])
+            if name in ('sinh', 'cosh') and abs(a[0]) > 3000:
+                raise Undecided('overflow')
             if name == 'sinh':
                 return m.sinh(a[0])
             if name == 'cosh':
@@ -184,6 +188,8 @@ class Ev:
                     raise Undecided('log domain')
                 return m.log(a[0])
             if name == 'exp':
+                if a[0] > 3000:
+                    raise Undecided('exp overflow')
                 return m.exp(a[0])
             if name == 'sqrt':
                 if a[0] < 0:
